@@ -31,7 +31,7 @@ func crashFeatures(c isish.Case) map[string]string {
 		f["passive"] = "true"
 	}
 	if ic.Ghost {
-		f["ghost"] = "true"
+		f["_prefix"] = "iface-without-device:"
 	}
 	return f
 }
